@@ -16,6 +16,14 @@ CHECKS = {
    text="TrustRegion.tla with Bounded=TRUE (same convergence-first/ratio/accept skeleton, one trial per outer iteration) checked exhaustively by TLC for Feasible, Descent, ReturnsLast, HonestFlag; BoxProjection.tla is an exact lattice model of the box projection (closest point, idempotent, in box, infinite and degenerate bounds) and of the project_onto_tr contract. TLC's ratio-class sequences are replayed through the value-oracle proxy into the real bound_constrained_trust_region_minimize on random boxes (finite, one-sided, degenerate; starts on faces and vertices); every lattice instance is replayed, scaled over 13 decades, into the real project/project_onto_tr with TLC as exact oracle; genuine solves (monotone and non-monotone SPG, iteration caps, radii) incl. convex quadratics compared with active-set enumeration; all traces judged by TrustRegionTrace.tla / BoxProjectionTrace.tla.",
    note="Trusted: dense sksparse shim; alpha in checks/trsolve.py and checks/c05.py (box membership exact; ball membership of project_onto_tr within 1e-9 relative = brentq xtol; optimality measure recomputed as ||P(x-g)-x||); runs where find_generalized_cauchy_point raises RuntimeError are outside the contract and dropped (counted in evidence). Known finding F2 reported as KNOWN-FINDING.",
    tech="TLA+ specs (TrustRegion.tla Bounded, BoxProjection.tla) + TLC exhaustive; scripted-oracle and lattice replay into the real code; trace validation in TLC"),
+ "C07": dict(cat="model_checking", ref="DESIGN.md §3 C07",
+   text="Sensitivity.tla models the forward/backward protocol of differentiable equilibrium solves over multi-step histories (saved residual data, reverse-order backward rules that must reinstall the saved parameters on the shared mutable objective before building the adjoint operator) and the parameter-slot routing (present slots among 0,1,2,4 get a cotangent from the matching Jacobian, slots 3,5 and absent slots none, the guess zero); TLC checks routing/ordering invariants for every present-slot set and history length. Every (present set, steps) it explores is executed on the real nonlinear_solve_with_state / nonlinear_solve: single solves through jax.vjp with random cotangents, chains with a differentiable state update through jax.grad, observed through a recording proxy; cotangents are compared with dense implicit-function references, MechanicsInverse helper vjps with dense Jacobian transposes (J2 and neo-Hookean FE problems), the adjoint function space with direct construction; SensitivityTrace.tla judges existence, presence, equality codes, routing and order.",
+   note="The numeric equality of cotangents is judged by the abstraction predicate (rtol 1e-6 against dense jax.jacfwd / unrolled dense Newton references, solver tol 1e-12); the specification decides existence, presence, routing, ordering and reinstallation. Trusted: dense sksparse shim; synthetic smooth energy with SPD Hessian for the solve-level checks; FE helper checks on a 3x3 structured mesh. Defect F7 (reverse rules raised TypeError) was found and fixed.",
+   tech="TLA+ protocol/routing spec (Sensitivity.tla) + TLC exhaustive; replay of every explored slot-set/history into the real differentiable solves; trace validation in TLC (numeric equality by abstraction predicate)"),
+ "C14": dict(cat="model_checking", ref="DESIGN.md §3 C14",
+   text="TLC checks DofManager.tla exhaustively over every (node, component) essential-BC mask of 1-, 2- and 4-triangle linear meshes and one- and two-element quadratic meshes with 1-3 fields per node (13 784 masks quick, 2^18 more thorough); the mechanism model mirrors FunctionSpace.DofManager and is checked against the clauses partition, exact constrained set, sizes, token-field split/round trip, per-component slices in node order, element COO maps as bags and entry-wise. Every mask is replayed, as the EssentialBC list TLC built for it (empty, full, overlapping, repeated-member node sets), into the real DofManager on a real Mesh/FunctionSpace; the logged integer observations are judged inside TLC by DofManagerTrace.tla with the same operators. Thorough adds simulated lists on the larger meshes and random lists on structured/Delaunay meshes of order 1-3 up to 511 nodes.",
+   note="Comparisons are exact on integers. Trusted: alpha in checks/c14.py (row-major dof id, unknown number = position in get_unknown_values, the assembler's mask-to-coordinate pairing). Negative or out-of-range components / node ids are not explored. A binding self-test (10 corrupted traces must be rejected with the intended clause) runs inside every check.",
+   tech="TLA+ spec (DofManager.tla) + TLC exhaustive over all BC masks; replay of every mask into the real DofManager; trace validation in TLC"),
  "C18": dict(cat="model_checking", ref="DESIGN.md §3 C18",
    text="TLC exhaustively model-checks SmoothFn.tla, an exact-integer model of min_base/min/max/abs, zmax, the friction potential and smooth_linear with the code's own branch tests: one-sidedness, quarter-width bound, equality outside the band, symmetry, friction non-negativity/convexity/Coulomb bound/r/2 offset, and C1 matching of value and derivative on every switch surface hold at every lattice point (19.5k quick, 143k thorough). The same run is the exact oracle: every lattice point is scaled over ten decades (plus an offset family with arguments up to 1e10 widths), perturbed by +-1 ulp per argument and evaluated on the real functions and jax.grad (vmapped, single jitted, eager); the comparison codes are judged clause by clause by SmoothFnTrace.tla.",
    note="Trusted: alpha in checks/c18.py (value allowance 16 ulp of the largest argument + 1e-9 width; continuity: spread over the ulp-neighbourhood <= 2 allowances, gradient spread <= 1e-7 scale); claims hold on a finite lattice x decades, not for all reals; friction convexity proved for the radial profile, 2-D by three-point tests on the real code; smooth_linear limited to l <= 1/2. Defect F14 (cancellation in min_base) was found by this check and fixed.",
